@@ -367,6 +367,12 @@ let proto_run fn argstr =
        | Ok None -> "err"
        | Panic -> "PANIC"
        | OutOfFuel -> "OUTOFFUEL")
+  | "p.scan", [h] ->
+      (match scan0 (bytes_of_hex h) with
+       | ROk l -> "ok " ^ String.concat "" (List.map (fun ((f, t), v) -> Printf.sprintf "%s:%s:%s " (string_of_z f) (string_of_z t) (hex_of_bytes v)) l)
+       | RErr _ -> "err"
+       | RPanic -> "PANIC"
+       | RFuel -> "OUTOFFUEL")
   | _ -> "unknown-fn"
 
 let both x y = if x = y then tf x else "MODEL-VARIANTS-DIFFER"
